@@ -7,6 +7,10 @@ import sys
 
 sys.path.insert(0, os.path.dirname(os.path.abspath(__file__)))
 sys.dont_write_bytecode = True
+if os.environ.get("VERIF_REPO_SRC"):
+    # sensitivity runs only (tools/mutants.py): import classy_blocks from a scratch copy.
+    # Registered commands never set this; they use /repo/src through the editable install.
+    sys.path.insert(0, os.environ["VERIF_REPO_SRC"])
 
 
 def main() -> int:
@@ -19,6 +23,9 @@ def main() -> int:
     ap.add_argument("--seeds", type=int, default=None, help="override number of seeds")
     a = ap.parse_args()
 
+    import warnings
+
+    warnings.simplefilter("ignore")
     from sim import runner
 
     runner.reexec_with_hashseed("0")
